@@ -40,9 +40,10 @@ def fit_summary(ev, func, res, bound):
 
 def generators(repo):
     out = []
+    from ..symeval import is_new_function
     for f in repo.all_functions():
-        if f.cls is None or not is_non_ideal(repo, f):
-            continue
+        if f.cls is None or not is_non_ideal(repo, f) or is_new_function(f):
+            continue   # (a private driver extracted from the generators is part of them, not a generator of its own)
         if returns_constructor_of(repo, f, "ProcessModel") or returns_constructor_of(repo, f, "DiffusionCurve"):
             out.append(f)
     return out
